@@ -34,7 +34,9 @@ pub fn pack_run(run: &[u8], junk: u64) -> u64 {
     for (i, b) in run.iter().enumerate() {
         v |= (*b as u64) << (62 - 2 * i);
     }
-    if n < 32 {
+    if n == 0 {
+        v = junk;
+    } else if n < 32 {
         v |= junk & ((1u64 << (64 - 2 * n)) - 1);
     }
     v
@@ -956,7 +958,8 @@ where
                     r.below(cur_len)
                 };
                 let maxn = std::cmp::min(32, cur_len - p);
-                let n = if r.chance(1, 2) { maxn } else { r.range(1, maxn) };
+                // a run of no bases at all is a legal packed write too: it must change nothing
+                let n = if r.chance(1, 12) { 0 } else if r.chance(1, 2) { maxn } else { r.range(1, maxn) };
                 let run = r.dna(n, &[0, 1, 2, 3]);
                 let junk = if r.chance(1, 3) { 0 } else if r.chance(1, 2) { u64::MAX } else { r.next() };
                 let val = pack_run(&run, junk);
